@@ -25,7 +25,7 @@ for pid in ALL:
             "text": "Bounded symbolic execution of the real code, decided by z3: within the stated bounds (quick: %s; thorough: %s) every path of "
                     "harness + real anytree code is explored and the property's oracle holds on each, or a concrete counterexample is produced and "
                     "replayed on the real code. Not a proof: nothing is claimed outside the bounds." % (m["bounds"]["quick"], m["bounds"]["thorough"]),
-            "design_ref": "DESIGN.md section 5, %s" % pid,
+            "design_ref": "DESIGN.md section 5 %s (plan), 9 (as built), 10 (mutation testing)" % pid,
         },
         "level_note": "Trusted: CPython, z3, CrossHair's search tree and int/bool/str proxies, the oracle code under /verif/harness and /verif/oracle. "
                       "Outside the claim: " + "; ".join(m["outside"]),
